@@ -47,6 +47,8 @@ func runC14(c *Ctx, r *Rec) {
 	info := c.info("collection")
 	ms := c.methodsOf(mp)
 	shapeLints(c, r, append(fileFuncs(c, "collection", mp, cls), moduleFuncsReturning(c, "MapLike")...))
+	checkCloneKeepsNil(c, r, "D2-clone-keeps-nil", fileFuncs(c, "collection", mp, cls))
+	checkNoDynamicEquality(c, r, "D1-no-dynamic-equality", fileFuncs(c, "collection", mp, cls))
 
 	// effects of a method on the receiver's Go map.  Unexported helper methods called on the
 	// receiver are stepped into, specialised on the constant truth values they are called with
